@@ -191,7 +191,13 @@ pub trait ByteReader {
         Self: Sized,
         D: Deserializable,
     {
-        let mut result = Vec::with_capacity(num_elements);
+        // `num_elements` frequently comes from untrusted input (e.g., a length prefix); reserve
+        // memory up-front only for a bounded number of bytes and let the vector grow as elements
+        // are actually read, so that a bogus length results in an error rather than in a capacity
+        // overflow panic or a huge allocation.
+        const MAX_PREALLOC_BYTES: usize = 1 << 16;
+        let max_prealloc = MAX_PREALLOC_BYTES / core::cmp::max(core::mem::size_of::<D>(), 1);
+        let mut result = Vec::with_capacity(core::cmp::min(num_elements, max_prealloc));
         for _ in 0..num_elements {
             let element = D::read_from(self)?;
             result.push(element)
